@@ -814,3 +814,47 @@ theorem typeEntryAt_bounds {payload : Bytes} {base : Nat} {prev : Option UInt32}
 
 
 end TrustVerif.C11
+
+namespace TrustVerif.C11
+
+/-! ## abstract emitter: rolling back code and debug entries together restores the snapshot -/
+
+theorem Emitter.rollback_restores (e s : Emitter) (h : e.Extends s) :
+    e.rollback s.code.length s.debug.length = s := by
+  obtain ⟨⟨c, hc⟩, ⟨d, hd⟩⟩ := h
+  cases s
+  simp_all [Emitter.rollback]
+
+theorem Emitter.extends_refl (s : Emitter) : s.Extends s := ⟨⟨[], by simp⟩, ⟨[], by simp⟩⟩
+
+theorem Emitter.extends_pushDebug {e s : Emitter} (h : e.Extends s) : e.pushDebug.Extends s := by
+  obtain ⟨⟨c, hc⟩, ⟨d, hd⟩⟩ := h
+  exact ⟨⟨c, hc⟩, ⟨d ++ [e.code.length], by simp [Emitter.pushDebug, hd]⟩⟩
+
+theorem Emitter.extends_emitBytes {e s : Emitter} (bs : Bytes) (h : e.Extends s) : (e.emitBytes bs).Extends s := by
+  obtain ⟨⟨c, hc⟩, ⟨d, hd⟩⟩ := h
+  exact ⟨⟨c ++ bs, by simp [Emitter.emitBytes, hc]⟩, ⟨d, hd⟩⟩
+
+theorem Emitter.inv_empty : ({} : Emitter).Inv := ⟨(by intro d hd; cases hd), List.Pairwise.nil⟩
+
+theorem Emitter.inv_emitBytes {e : Emitter} (bs : Bytes) (h : e.Inv) : (e.emitBytes bs).Inv := by
+  refine ⟨?_, h.2⟩
+  intro d hd
+  have := h.1 d hd
+  simp only [Emitter.emitBytes, List.length_append]
+  omega
+
+theorem Emitter.inv_pushDebug {e : Emitter} (h : e.Inv) : e.pushDebug.Inv := by
+  refine ⟨?_, ?_⟩
+  · intro d hd
+    simp only [Emitter.pushDebug, List.mem_append, List.mem_singleton] at hd
+    cases hd with
+    | inl hd => exact h.1 d hd
+    | inr hd => subst hd; exact Nat.le_refl _
+  · simp only [Emitter.pushDebug, List.pairwise_append, List.pairwise_cons, List.mem_singleton]
+    refine ⟨h.2, ⟨(by intro a ha; cases ha), List.Pairwise.nil⟩, ?_⟩
+    intro a ha b hb
+    subst hb
+    exact h.1 a ha
+
+end TrustVerif.C11
